@@ -103,7 +103,7 @@ func planBulk(c *Ctx, run int64, prop string, malformed bool) *Plan {
 				op.I = Pick(r, []int64{1000, 1e6, 5e8, 3e9, 6e10, 36e11, 1728e11}) // 1µs … 48h
 			}
 			if malformed && Chance(r, 0.35) {
-				op.S3 = Pick(r, []string{"payload-null", "payload-string", "data-not-base64", "doc-member-lost", "doc-null-elem", "doc-retyped", "sigs-empty", "unknown-currency", "deep", "no-action"})
+				op.S3 = Pick(r, []string{"payload-null", "payload-string", "data-not-base64", "doc-member-lost", "doc-retyped", "sigs-empty", "unknown-currency", "deep", "no-action"})
 				op.I = int64(r.IntN(1 << 20))
 			}
 			p.Ops = append(p.Ops, op)
@@ -306,9 +306,9 @@ func standalone(rq *bulkReq, defKey int) string {
 	saved := cli.SimYield
 	cli.SimYield = nil
 	defer func() { cli.SimYield = saved }()
-	if rq.Action == "sleep" {
-		// do not spend virtual time for the oracle
-		if rq.SleepNS > 0 {
+	if rq.Action == "sleep" && rq.SleepNS > 0 {
+		// a well-formed sleep: do not spend virtual time for the oracle
+		if s, ok := rq.Payload.(string); ok && s == time.Duration(rq.SleepNS).String() {
 			return `{"sleep":"done"}`
 		}
 	}
